@@ -64,7 +64,7 @@ PLANS = {
             enum_iter("miri", 16, 2, False, extra=2, bare=True, tiers=("quick",)), enum_iter("miri", 16, 4, False, extra=2, bare=True, tiers=("thorough",)),
             hist("order", 2, 480000, 3000000)],
     "C13": [job("bigcap", "native", 2, [], budget={"quick": 300000, "thorough": 3000000}, budget_arg="max-n"), hist("big", 1, 40000, 300000), job("churn", "native", 4, [], budget={"quick": 1000000, "thorough": 25000000}, budget_arg="ops"), job("interleave", "native", 2, [], budget={"quick": 200000, "thorough": 3000000}), hist("capacity", 14, 480000, 7500000, reports_to=("C13",)), hist("realloc", 2, 480000, 3000000)],
-    "C14": [job("clone_refusal", "native", 120, ["--case", "{shard}"], abort_ok=True, prop="C14"),
+    "C14": [job("clonefrom", "native", 2, [], budget={"quick": 20000, "thorough": 400000}, reports_to=MEM), job("clone_refusal", "native", 120, ["--case", "{shard}"], abort_ok=True, prop="C14"),
             job("bigcap", "native", 1, [], budget={"quick": 300000, "thorough": 3000000}, budget_arg="max-n"), hist("big", 1, 40000, 300000), hist("realloc", 1, 480000, 3000000), job("interleave", "native", 2, [], budget={"quick": 200000, "thorough": 3000000}), hist("clone", 12, 480000, 7500000), hist("mixed", 2, 480000, 3000000),
             hist("clone", 6, 100000, 2000000, mode="asan", reports_to=MEM),
             hist("clone", 16, 300, 4000, mode="miri", reports_to=MEM, extra=["--bare", "1"])],
@@ -108,7 +108,7 @@ FLOORS = {
     "C07": {"evaluations": {"quick": 300000, "thorough": 10000000}, "distinct": 300, "reallocations": {"quick": 10000, "thorough": 300000}, "max:max_len": {"quick": 100, "thorough": 1000}},
     "C12": {"evaluations": {"quick": 20000, "thorough": 200000}, "distinct": 5000, "c12_past_exhaustion": 1000, "c12_dropped_after_prefix": 1000},
     "C13": {"evaluations": {"quick": 50000, "thorough": 1500000}, "distinct": 60, "c13_auto_growth": 500, "c13_shrunk": 500, "c13_alloc_failures_injected": 200, "c13_try_reserve_err_capacity": 200, "c13_with_capacity_inserts": 500, "c13_churn_ops": {"quick": 3000000, "thorough": 90000000}, "c13_bigcap_constructions_20000_plus": 20},
-    "C14": {"evaluations": {"quick": 100000, "thorough": 3000000}, "distinct": 100, "c14_ops_with_sibling_caches": 50000, "sum:c14_clone_re": 100},
+    "C14": {"evaluations": {"quick": 100000, "thorough": 3000000}, "distinct": 100, "c14_ops_with_sibling_caches": 50000, "sum:c14_clone_re": 100, "c14_clone_from_source_capacity_between_target_capacity_and_buckets": 100},
     "C15": {"evaluations": {"quick": 2000, "thorough": 20000}, "distinct": 60},
     "C16": {"evaluations": {"quick": 200000, "thorough": 5000000}, "distinct": 1000, "each:c16_fired_": 20, "c16_hash_panic_in_explicit_rebuild": 1000, "c16_hash_panic_in_growing_insert": 300,
             "c16_further_use_ops": 100000, "c16_dropped_after": 100000, "c16_big_state_injections": 40, "c16_allocation_refused_inside_infallible_rebuild": 2000, "c16_callback_panic_with_allocation_refusal_armed": 2000, "c16_remutate_after_panicked_mutate": 5000, "c16_second_panic_in_further_use": 20000},
